@@ -37,7 +37,7 @@ class C15(Prop):
     def harness(self, ctx):
         env = build_bridge(ctx)
         obs = {}
-        for name in ("C15Conn", "C15Bridge"):
+        for name in ("C15Conn", "C15Bridge", "C15Route"):
             rc, out, p, dt = C.go_test_overlay(ctx.work, "./utils/tcpbridge/connection/", "TestVerif%s$" % name, OVERLAY, name + ".jsonl", ctx.seed, ctx.tier, timeout=1800, extra_env=env)
             rows = C.read_jsonl(p)
             if rc != 0 or not rows:
@@ -47,6 +47,20 @@ class C15(Prop):
 
     def oracle(self, ctx, obs):
         res = []
+        for r in obs.get("C15Route", []):
+            path_only = r["path"].split("?")[0]
+            bridge = r["upgrade"] and path_only == r["streaming_path"]
+            rp = {"driver": "TestVerifC15Route: connection.Handler with a recording passthrough handler and a TCP server", "observed": r}
+            passed = [x for x in r.get("passthrough_saw") or [] if ("marker=" + r["marker"]) in x]
+            if bridge:
+                if passed or r.get("tcp_connections", 0) < 1 or r.get("handshake") != "accepted":
+                    res.append(("route:bridge-stream-not-bridged", "a websocket upgrade on the streaming path was not bridged to the TCP backend", rp))
+            else:
+                if not passed or r.get("tcp_connections", 0) != 0 or r.get("handshake") == "accepted":
+                    res.append(("route:not-passed-through", "%s %r was not handed to the pass-through handler untouched (bridged: %s TCP connection(s), handshake %s)" % (
+                        "websocket upgrade on" if r["upgrade"] else "plain request to", r["path"], r.get("tcp_connections"), r.get("handshake")), rp))
+                elif len(passed) != 1 or r["path"] not in passed[0]:
+                    res.append(("route:passthrough-altered", "the pass-through handler saw %s for %r" % (passed, r["path"]), rp))
         for r in obs["C15Conn"]:
             if r["kind"] == "read":
                 exp = b""
@@ -97,13 +111,18 @@ class C15(Prop):
                         continue
                     items.append("write_case_ok %s %s" % (C.llit(str(b) for b in hexbytes(w)), C.llit(str(ord(c)) for c in f["data"])))
                     rows.append({"write": w[:80], "frame": f["data"][:80]})
-        body = "\n".join(["From Coq Require Import List Arith Bool ZArith.", "From IP Require Import TcpBridge.Conn TcpBridge.BridgeCheck Lib.Util.", "Import ListNotations.",
+        # the routing decision of Handler against the model (streaming path regenerated from the source)
+        for r in obs.get("C15Route", []):
+            bridged = r.get("handshake") == "accepted" and r.get("tcp_connections", 0) >= 1
+            items.append("Bool.eqb (routes_to_bridge (hd EmptyString streamingPath) %s %s) %s" % (C.blit(r["upgrade"]), C.slit(r["path"].split("?")[0]), C.blit(bridged)))
+            rows.append(r)
+        body = "\n".join(["From Coq Require Import List Arith Bool ZArith String.", "From IP Require Import Gen.SrcFacts_TcpBridge TcpBridge.Conn TcpBridge.BridgeCheck Lib.Util.", "Import ListNotations.", "Open Scope list_scope.",
                           "Definition zn (z : Z) : nat := Z.to_nat z.", "Definition oks : list bool := " + C.llit(items) + ".",
                           "Definition verif_result : list Z := Eval vm_compute in (bad_indices (fun b : bool => b) 0%Z oks)."])
         txt, out, dt = C.eval_cases(ctx.work, "cases_c15", body)
         if txt is None:
             return [("cases_c15.v (model evaluation)", "coqc failed: " + out[-600:], {})], 0, {}
-        mism = [("BridgeCheck.read_case_ok/write_case_ok", "Read/Write results differ from the model's", rows[i]) for i in C.parse_z_list(txt)]
+        mism = [("BridgeCheck.read_case_ok/write_case_ok/routes_to_bridge", "Read/Write results or the routing decision differ from the model's", rows[i]) for i in C.parse_z_list(txt)]
         return mism, len(items), {"coqc_s": round(dt, 2), "cases": len(items)}
 
     def coverage(self, ctx, obs):
